@@ -33,7 +33,9 @@ VARIABLES l,
           cyc,      \* current cycle (1-based), 0 before the first run
           ran, running,
           pubs,     \* set of <<data, src, term>> of successful publishers in this cycle
-          subm,     \* vertices handed to the executor and not yet returned from GraphVertex::run
+          subm,     \* vertices handed to the executor and not yet returned from GraphVertex::run (the return comes after
+                    \* the closure's count was dropped, so wait() may legitimately return first: judged are the
+                    \* processor begin / end events and hand-overs after wait())
           finSeen, waitSeen, code,
           bad,      \* first violated clause of this execution ("" = none)
           viol      \* set of <<"L<line>", clause>> over all executions of the file (reported by Post)
@@ -86,6 +88,7 @@ MVBegin(e) ==
      /\ running' = running \cup {e.v}
      /\ bad' = IF ~wf THEN Flag(TRUE, "Protocol")
                ELSE Flags(<< <<e.v \in ran, "RunAtMostOnce">>,
+                             <<waitSeen /\ (code = 0 \/ R.ij = 0), "WaitReturnsAfterAllFinished">>,
                              <<e.v \notin RunSetAny(G, R), "OnlyNeededRun">>,
                              <<\E i \in DOMAIN G.deps[e.v] : ~DepOK(e, i, JPub), "RunOnlyAfterDepsReady">> >>)
      /\ UNCHANGED <<cyc, pubs, subm, finSeen, waitSeen, code>> /\ Keep
@@ -128,7 +131,7 @@ MFin(e) ==
 MWaitRet(e) ==
   /\ waitSeen' = TRUE
   /\ bad' = Flags(<< <<~InRun, "Protocol">>,
-                     <<(running # {} \/ subm # {}) /\ (code = 0 \/ R.ij = 0), "WaitReturnsAfterAllFinished">>,
+                     <<running # {} /\ (code = 0 \/ R.ij = 0), "WaitReturnsAfterAllFinished">>,
                      <<~finSeen, "WaitReturnsAfterAllFinished">> >>)
   /\ UNCHANGED <<cyc, ran, running, pubs, subm, finSeen, code>> /\ Keep
 
